@@ -18,6 +18,8 @@ TRUSTED = CC.TRUSTED_COMMON + [
     "C06: the listeners are the harness's recording listeners; their scripted reactions only add/remove listeners (never touch the cache)",
 ]
 ASSUMPTIONS = [
+    "the `now` handed to async_update_records is read as part of 'called with the pairs': it has to be the datagram's arrival time, the instant "
+    "the new records are stamped with (C06:update-now) -- listeners such as the browser classify Removed by is_expired(now)",
     "D ops reach RecordManager.async_updates_from_response directly (with the wall clock moving on after the decode); W ops go as bytes through "
     "the real AsyncListener. Reading of 'for every response datagram' where the duplicate guard (C16's subject) is in front: every datagram that "
     "is not byte-identical to the last *processed* datagram of the socket or arrives 1000 ms or more after it; 'arrival time' = the one clock "
@@ -51,7 +53,9 @@ def oracle(probes, ops, obs, res):
         if o["err"]:
             if k == "LR" and o["err"] == "KeyError":
                 # (only on a tree without the D18 repair) removing a listener that is not registered, outside any datagram: the call
-                # raises, nothing else happens.  The property speaks about datagrams; not reported (notes/agents/C06.md)
+                # raises, nothing else happens.  Inside the quantifier ("listeners added or removed at any point"); reported, the
+                # history ends here
+                found.append((idx, "C06:remove-absent-listener-raises", "async_remove_listener of a listener that is not registered raised KeyError"))
                 break
             if k in ("D", "W") and o["err"] == "KeyError" and o.get("failed"):
                 ph, lid, _, tg = o["failed"][0]
